@@ -20,6 +20,10 @@ def cells_equal(a, b):
     return a == b
 
 
+import re
+UNITS_RE = re.compile(r'^\s*(\S(?:.*\S)?)\s+Units\s*$')
+
+
 class Prop(common.PropertyCheck):
     pid = 'C15'
     rule = ("generated workbooks (1..2 instruments with different channel names, bead rows clustered in 1, 2 or 3 channels, sample rows with mixed units, "
@@ -32,12 +36,12 @@ class Prop(common.PropertyCheck):
 
     def gen_cases(self):
         rng = self.rng
-        combos = [(False, True, 2, 2), (True, False, 1, 3)] if self.tier == 'quick' else \
-                 [(p, h, ni, ca) for p in (False, True) for h in (False, True) for ni in (1, 2) for ca in (1, 2, 3)]
+        combos = [(False, True, 2, 2), (True, False, 1, 4)] if self.tier == 'quick' else \
+                 [(p, h, ni, ca) for p in (False, True) for h in (False, True) for ni in (1, 2) for ca in (1, 2, 3, 4)]
         # an instrument with 12 fluorescence channels, all reported and plotted
         yield {'k': 'run', 'plot': True, 'hist': rng.random() < 0.5, 'ninst': 1, 'arity': 1, 'default_out': False, 'rel_out': True, 'seed': rng.randrange(1 << 30), 'inp_name': 'wide', 'wide': 12}
-        for plot, hist, ninst, arity in combos:
-            yield {'k': 'run', 'plot': plot, 'hist': hist, 'ninst': ninst, 'arity': arity, 'default_out': rng.random() < 0.5 or (plot and not hist), 'rel_out': True, 'seed': rng.randrange(1 << 30),
+        for ci, (plot, hist, ninst, arity) in enumerate(combos):
+            yield {'odd_headers': ci % 2 == 0, 'k': 'run', 'plot': plot, 'hist': hist, 'ninst': ninst, 'arity': arity, 'default_out': rng.random() < 0.5 or (plot and not hist), 'rel_out': True, 'seed': rng.randrange(1 << 30),
                    'inp_name': rng.choice(['samples', 'cells', 'mix.xls', 'xlsx', 'results.'] + ([] if (plot and not hist) else ['experiment', 'plate_07']))}
         for _ in range(self.budget(25, 300)):
             yield {'k': 'roundtrip', 'seed': rng.randrange(1 << 30), 'nrows': rng.randrange(0, 7), 'dup': rng.random() < 0.2, 'noid': rng.random() < 0.5, 'ws': rng.random() < 0.4}
@@ -114,7 +118,7 @@ class Prop(common.PropertyCheck):
             os.makedirs(os.path.join(ex.dir, 'FCFiles'))
             inst = ex.instruments_table()
             ex.write_fcs('FCFiles/beads1.fcs', 'FC001', kind='beads', n=1400, seed=case['seed'] % 1000 + 1)
-            cl = {1: ('FL1',), 2: ('FL1', 'FL3'), 3: ('FL1', 'FL2', 'FL3')}[case['arity']]
+            cl = {1: ('FL1',), 2: ('FL1', 'FL3'), 3: ('FL1', 'FL2', 'FL3'), 4: ('FL1', 'FL2', 'FL3', 'SSC')}[case['arity']]
             # MEF columns listed in another order than the instrument's channels (FL3 before FL1); a second row calibrates FL3 only
             brows = [excelgen.beads_row('B1', 'FC001', 'FCFiles/beads1.fcs', channels=('FL3', 'FL1'), clustering=cl),
                      excelgen.beads_row('B3', 'FC001', 'FCFiles/beads1.fcs', channels=('FL3',), clustering=('FL3',))]
@@ -134,6 +138,9 @@ class Prop(common.PropertyCheck):
                 srows.append(excelgen.sample_row('T0', 'FC002', 'FCFiles/t0.fcs', {'GFP-A': 'RFI'}, None, extra={'Strain': 'z', 'Dose': 2}))
             beads = pd.DataFrame(brows)
             samples = pd.DataFrame(srows)
+            if case.get('odd_headers', case['seed'] % 2):
+                # headers as typed in a spreadsheet: a trailing blank, two blanks before "Units" (both match the documented header pattern)
+                samples = samples.rename(columns={'FL2 Units': 'FL2  Units', 'FL1 Units': 'FL1 Units '})
             # a row without identifier (a comment) in each sheet: must be dropped on reading
             samples = pd.concat([samples, pd.DataFrame([{'ID': np.nan, 'Strain': 'comment without id'}])], ignore_index=True)
             inp = os.path.join(ex.dir, case.get('inp_name', 'experiment') + '.xlsx')
@@ -203,8 +210,8 @@ class Prop(common.PropertyCheck):
                 res['hist_rows'] = rows_h
                 nev = pd.read_excel(outp, sheet_name='Samples', engine='openpyxl').set_index('ID')['Number of Events']
                 res['nev'] = {str(k): (None if pd.isnull(v) else int(v)) for k, v in nev.items()}
-                res['expected_pairs'] = sorted([str(r['ID']), c[:-6]] for _, r in samples[samples['ID'].notnull()].iterrows()
-                                               for c in samples.columns if c.endswith(' Units') and not pd.isnull(r[c]))
+                res['expected_pairs'] = sorted([str(r['ID']), UNITS_RE.match(c).group(1)] for _, r in samples[samples['ID'].notnull()].iterrows()
+                                               for c in samples.columns if UNITS_RE.match(c) and not pd.isnull(r[c]))
             bout = pd.read_excel(outp, sheet_name='Beads', engine='openpyxl').set_index('ID')
             for key, wantp in want_params.items():
                 bid, c = key.split('|')
@@ -214,7 +221,7 @@ class Prop(common.PropertyCheck):
             if case.get('rel_out') and not case['default_out'] and os.path.exists(outp):
                 res['rel_out_ok'] = True
             res['problems'] = problems
-            res['report_channels'] = [c[:-6] for c in samples.columns if c.endswith(' Units')]
+            res['report_channels'] = [UNITS_RE.match(c).group(1) for c in samples.columns if UNITS_RE.match(c)]
             figs = []
             if case['plot']:
                 want = ['plot_beads/density_hist_B1.png', 'plot_beads/clustering_B1.png'] + \
